@@ -197,14 +197,19 @@ func c18Valid(c *Ctx, r *Report) {
 						}
 						return "2020-01-01", true
 					}
-					if t.Op == "call" && (t.Name == "(time.Time).Before" || t.Name == "(time.Time).After") && len(t.Args) == 2 {
+					if t.Op == "call" && (t.Name == "(time.Time).Before" || t.Name == "(time.Time).After" || t.Name == "(time.Time).Equal" || t.Name == "(time.Time).Compare") && len(t.Args) == 2 {
 						a, ok1 := tv(t.Args[0])
 						b, ok2 := tv(t.Args[1])
 						if ok1 && ok2 {
-							if t.Name == "(time.Time).Before" {
+							switch t.Name {
+							case "(time.Time).Before":
 								return a < b, true
+							case "(time.Time).After":
+								return a > b, true
+							case "(time.Time).Equal":
+								return a == b, true
 							}
-							return a > b, true
+							return cmp3(int64(a), int64(b)), true
 						}
 					}
 					return nil, false
@@ -234,8 +239,24 @@ func c18Lookup(c *Ctx, r *Report) {
 	fn := c.Func("util", "HasValidTLD")
 	outs, abort := Enumerate(fn, SymOpts{Inline: noInline})
 	dom, when := fn.Params[0].Name(), fn.Params[1].Name()
+	// equivalent ways of taking the lower-cased right-most label
 	split := fmt.Sprintf(`strings.Split(strings.ToLower(%s), ".")`, dom)
-	wantKey := fmt.Sprintf("%s[(builtin:len(%s) - 1)]", split, split)
+	splitRaw := fmt.Sprintf(`strings.Split(%s, ".")`, dom)
+	lower := fmt.Sprintf("strings.ToLower(%s)", dom)
+	keyForms := []string{
+		fmt.Sprintf("%s[(builtin:len(%s) - 1)]", split, split),
+		fmt.Sprintf("strings.ToLower(%s[(builtin:len(%s) - 1)])", splitRaw, splitRaw),
+		fmt.Sprintf(`slice(%s, (strings.LastIndex(%s, ".") + 1), _, _)`, lower, lower),
+		fmt.Sprintf(`strings.ToLower(slice(%s, (strings.LastIndex(%s, ".") + 1), _, _))`, dom, dom),
+	}
+	wantKey := keyForms[0]
+	for _, kf := range keyForms {
+		for _, o := range outs {
+			if strings.Contains(o.CondString(), "lookup:commaok(util.tldMap, "+kf+")") {
+				wantKey = kf
+			}
+		}
+	}
 	lookup := "lookup:commaok(util.tldMap, " + wantKey + ")"
 	bad := abort
 	for _, present := range []bool{true, false} {
@@ -497,12 +518,16 @@ func c18Generator(c *Ctx, r *Report) {
 	}
 	// both fields parsed with the layout constant
 	fields := map[string]bool{}
-	for _, call := range callsTo(fn, "time.Parse") {
+	allInstrsDeep(fn, func(in ssa.Instruction) {
+		call, ok := in.(ssa.CallInstruction)
+		if !ok || staticCalleeName(call.Common()) != "time.Parse" {
+			return
+		}
 		a := call.Common().Args
 		if k, ok := a[0].(*ssa.Const); ok && k.Value != nil && constant.StringVal(k.Value) == tldLayout {
 			fields[lastField(apath(a[1]))] = true
 		}
-	}
+	})
 	r.Check(fields["DelegationDate"] && fields["RemovalDate"], "generator", "validateGTLDs parses both dates", fn.Pos(), "", "the generator no longer parses DelegationDate and RemovalDate with the table's layout before writing the map")
 	// decision table of one iteration: delegation parse error ⇒ error; removal non-empty ∧ parse error ⇒ error
 	outs, abort := Enumerate(fn, SymOpts{Inline: func(*ssa.Function) bool { return false }, LoopBound: 1})
